@@ -82,19 +82,20 @@ Theorem C19_find_max_lines_prefix : forall fs begin_ms max,
   end.
 Proof. exact c19_find_max_lines_prefix. Qed.
 
-(** a crash tore the last file (log cut inside a line, index cut inside an entry, at any bytes): the search by
-    time returns exactly what the completely written part prescribes, plus at most one item read from the torn line *)
+(** a crash tore the last file ([torn_ok2]: the log cut inside a line at any byte; the index cut inside an entry
+    at any byte, possibly after one complete entry whose first line is the torn one - the writer issues an
+    index entry before the lines of its second): the search by time returns exactly what the completely written part prescribes, plus at most one item read from the torn line *)
 Theorem C19_search_by_time_after_crash : forall fs day no t begin_ms end_ms res,
-  torn_ok t -> Forall name_ok (t_items t) ->
+  torn_ok2 t -> Forall name_ok (t_items t) ->
   good_dir (fs ++ [cut_file day no t]) ->
   exists extra, (length extra <= 1)%nat /\
     find_by_time (map conc fs ++ [torn_file day no t]) begin_ms end_ms res =
     expected_by_time (fs ++ [cut_file day no t]) (begin_ms / 1000) (end_ms / 1000) res ++ extra.
-Proof. exact c19_search_by_time_after_crash. Qed.
+Proof. exact c19_search_by_time_after_crash2. Qed.
 
 (** ... and so does the search with a line limit *)
 Theorem C19_search_max_lines_after_crash : forall fs day no t begin_ms max,
-  torn_ok t -> Forall name_ok (t_items t) ->
+  torn_ok2 t -> Forall name_ok (t_items t) ->
   good_dir (fs ++ [cut_file day no t]) ->
   exists extra, (length extra <= 1)%nat /\
     match from_first_entry (fs ++ [cut_file day no t]) (begin_ms / 1000) with
@@ -102,4 +103,4 @@ Theorem C19_search_max_lines_after_crash : forall fs day no t begin_ms max,
     | Some items => exists out, max_ok items max out /\
                     find_max_lines (map conc fs ++ [torn_file day no t]) begin_ms max = out ++ extra
     end.
-Proof. exact c19_search_max_lines_after_crash. Qed.
+Proof. exact c19_search_max_lines_after_crash2. Qed.
